@@ -3,20 +3,26 @@ CONFIG = dict(
     engine="pure (white-box shim mapped into package etcd with `go test -overlay`; nothing under /repo is modified)",
     technique="Lean 4 theorems (refinement of the batched watch fold to the one-event-at-a-time semantics for every batching; "
               "machine invariant for self presence; MakeMembers against a declarative specification; interleaving model of field "
-              "stores vs. a getter's single load) over a hand-written model + differential correspondence with the real provider "
-              "fold and the real directory (incl. the real StartMember on an in-memory etcd) + getter facts and the start-up order (initial publication before the watch goroutine) regenerated from the source by a go/ast extractor and re-checked by the kernel",
+              "stores vs. a getter's single load; invariant 'member map + pending events = store' of the provider in front of a model of the etcd store, "
+              "and the frozen key of a run that lost an event) over a hand-written model + differential correspondence with the real provider "
+              "fold and the real directory (incl. the real StartMember / StartClient, watch loop and restart on an in-memory revisioned etcd store; the cluster-disabled start) + getter facts, the getters each helper query of package app calls, and the start-up order (initial publication before the watch goroutine) regenerated from the source by a go/ast extractor and re-checked by the kernel",
     level_text="Machine-checked proof in Lean 4 that the model of handleWatchResponse/updateNodesWithChanges folds every history, under every "
                "batching into watch responses, to the member set the events imply one at a time (self never touched, duplicates idempotent, "
-               "unknown deletes no-ops, dead registrations removed); that after the initial listing every publication contains the node itself "
+               "unknown deletes no-ops, dead registrations removed; Member.Port = int32(port) modelled as the signed low 32 bits); that after the initial listing every publication contains the node itself "
                "with its current state; that MakeMembers' per-type lists, working lists and name resolution equal a declarative function of the "
                "member set (independent of Go map order); and that a getter's single field load interleaved arbitrarily with the updater's field "
-               "stores returns the answer of one completely built view. The model is tied to the Go code on every run by executing both on "
+               "stores returns the answer of one completely built view (and so does every helper query of package app: each calls one getter once). "
+               "With the provider placed in front of a model of the etcd store (writes by any node, lease expiries, the initial Get, the watch created 'from now', "
+               "deliveries in any batching, failed and re-opened watches, own state changes, the keep-alive loop's revoke and re-registration after a state change): as long as no event is lost the member map with the pending events "
+               "applied IS the store (and a member holds and publishes its own entry — which it does through lost events as well; an own state change reaches the node's own directory and the store through the keep-alive loop's revoke and re-registration); an event lost between the listing and the creation of the watch, or with a "
+               "failed watch, is never repaired until the key is written again (the code passes no start revision and never re-lists: reported as a suspected defect, not flagged). "
+               "The model is tied to the Go code on every run by executing both on "
                "generated histories (every history of <=2 events quick / <=4 events thorough over a 10-event alphabet under every batching, "
-               "random histories over 3-4 nodes incl. self, malformed streams) and the property predicate is evaluated on the member lists "
+               "random histories over 3-4 nodes incl. self, malformed streams; scripts of store writes / gap writes / deliveries / watch failures against the real StartMember and StartClient) and the property predicate is evaluated on the member lists "
                "the real provider publishes and on the answers of the real directory.",
     level_note="Trusted: Lean kernel; the harness/driver line protocol and canonicalisation (published lists and query answers sorted; a name listed "
                "more than once rendered as dup<k>); the Go memory model for the unsynchronised pointer-sized field stores (modelled as atomic steps); "
-               "etcd's own delivery guarantees; encoding/json (validated by the differential run). The theorems are about the model; the differential "
+               "etcd's documented semantics as implemented by the in-memory store of the harness (PUT always an event, DELETE only of an existing key, a watch without start revision begins at the current revision, WithRev replays the log); encoding/json (validated by the differential run). The theorems are about the model; the differential "
                "run ties it to the code on sampled inputs only.",
     gen=["cd /verif/harness && go1.26 run ./c08/extract -repo /repo -out /verif/lean/Cell2v/Gen/C08Facts.lean"],
     lean_targets=["Cell2v.Props.C08", "modeld_c08"],
@@ -27,14 +33,20 @@ CONFIG = dict(
                        "delete_unknown_noop", "reregistration_replaces", "typeList_eq_spec", "workList_eq_spec",
                        "getService_resolves", "directory_is_function_of_member_set", "directory_is_function_of_history",
                        "read_sees_whole_view", "getter_facts_match_source",
-                       "initial_publish_before_watch", "sequential_publications_end_in_last"],
+                       "initial_publish_before_watch", "sequential_publications_end_in_last",
+                       "directory_eq_store_when_no_event_lost", "directory_lists_current_membership", "lost_event_is_never_repaired", "own_state_change_is_published", "self_present_through_lost_events", "port_in_range_unchanged", "foreign_registration_under_own_key_evicts_self", "dead_listed_registration_stays",
+                       "registration_between_listing_and_watch_is_lost", "failed_watch_loses_pending_delete",
+                       "directory_is_function_of_history_wf", "listing_eq_implied_registrations",
+                       "implied_depends_only_on_own_key_events", "key_last_event_decides",
+                       "getService_resolves_to_a_lister", "self_cluster_lists_own_services",
+                       "helper_queries_single_getter", "helper_query_sees_whole_view", "working_items_have_no_pid"],
     harness_pkg="./c08",
     go_flags=["-overlay=/verif/harness/c08/overlay/overlay.json"],
     mode="diff",
     reset_prefix="reset",
     runs={
         "quick": [dict(name="main", env={"VERIF_N": "700", "VERIF_EXH": "3"}, timeout=240)],
-        "thorough": [dict(name="main", env={"VERIF_N": "8000", "VERIF_EXH": "3", "VERIF_STRESS": "200000"}, timeout=900),
+        "thorough": [dict(name="main", env={"VERIF_N": "8000", "VERIF_EXH": "3", "VERIF_SYSEXH": "4", "VERIF_STRESS": "200000"}, timeout=900),
                      dict(name="seed2", env={"VERIF_N": "8000", "VERIF_EXH": "1"}, seed_offset=1000, timeout=900),
                      dict(name="exh4", test="TestExhaustive", env={"VERIF_EXH": "4"}, timeout=1500)],
     },
@@ -48,7 +60,10 @@ CONFIG = dict(
          "(GetMembers, GetServiceList, GetWorkServiceList, GetService, GetWorkServiceNames for all types and a name universe); `mk` ops build "
          "the directory from explicit member lists incl. duplicate ids, duplicate and malformed service names. `start` ops run the real StartMember on in-memory KV/Lease/Watcher stand-ins inside a synctest bubble "
          "(listing, then a response right after the watch opened, the first directory store held until a second publication or 500 ms of "
-         "virtual time) and observe what the directory holds in the end; a `stress` op is a reader/updater smoke run. A case is non-trivial when the "
+         "virtual time) and observe what the directory holds in the end; `sys` ops run the real StartMember or StartClient against an in-memory revisioned etcd store "
+         "(initial content incl. stale own registration and dead entries; writes that fall between the Get and the creation of the watch; then PUTs/DELETEs by any node incl. the node's own key, "
+         "deliveries of everything pending as one response, watch failures answered by the real restart loop, own state changes, keep-alive answers that make the real keep-alive loop revoke the lease and register again) and observe the number of Watch calls, of publications and the last "
+         "published list; every `sys` script of <= 3 (quick) / 4 (thorough) steps over a 9-step alphabet is run against two stores (exhaustive); `selfcluster` ops run InitSelf + BuildSelfClusterTopology + UpdateClusterTopology (cluster disabled) and dump the directory; a `stress` op is a reader/updater smoke run. A case is non-trivial when the "
          "observation carries a publication or a directory dump; distinct = distinct (op, observation) pairs",
     trusted_base=[
         "Lean 4.33.0 kernel; axioms of every property theorem audited on each run (allowed: propext, Classical.choice, Quot.sound)",
@@ -57,13 +72,15 @@ CONFIG = dict(
         "white-box shim harness/c08/overlay/export_verif.go (one-line accessors: provider without etcd client, init, updateNodesWithSelf+publish, _keepWatching on an injected channel)",
         "harness canonicalisation: published member lists and directory answers sorted; a service name listed more than once resolves to an arbitrary item in the code (Go map order) and is rendered dup<k>;in|out; a directory built from a published list with duplicate member ids (reachable only with key/id mismatches) is not queried",
         "in-memory stand-ins for clientv3 KV/Lease/Watcher (harness/c08) used by the `start` op; testing/synctest (go1.26) virtualises the 500 ms hold",
+        "in-memory revisioned store + watch sessions (harness/c08 memStore) used by the `sys` op: etcd's documented semantics only; the provider's own Put calls wait until the first watch exists (one of the possible schedules of StartMember: watch goroutine before registerService); KeepAlive answers only on a `K` step; Revoke deletes the keys the provider wrote",
+        "go/ast extractor also lists, for every function of package app outside Cluster/ClusterServices, the directory getters it calls on GetCluster() (transitively, loops marked): theorem helper_queries_single_getter is re-checked against it on every run",
         "encoding/json: the harness writes the JSON a peer would write (json.Marshal of the same fields) and six kinds of invalid values",
     ],
     assumptions=[
         "pointer-sized field stores/loads of ClusterServices are atomic and a reader that loaded a map reference sees the completely built map (Go memory model; the code has no synchronisation there) — modelled as atomic steps, not verified",
-        "etcd delivers each event of the watched prefix once, in revision order (the property is about the fold of what is delivered)",
+        "an OPEN watch delivers each event of the prefix once, in revision order (etcd); which events a watch session sees at all is modelled (Sys): the code creates its watches without a start revision and never re-lists, so writes between the initial Get and the creation of the watch, and events pending when a watch fails, are lost for good (theorems registration_between_listing_and_watch_is_lost, failed_watch_loses_pending_delete, lost_event_is_never_repaired; reproduced on the real StartMember by corpus/C08/sys.txt) — reported as a suspected defect, the monitor flags only a directory that differs from what the handed-over events imply, or from the store when nothing was lost",
+        "directory = store is proved for stores and writes as cell2 makes them (value under the node's own id, alive=true — Serialize always writes Alive=true); a foreign registration saying alive=false is kept by the initial listing and dropped by the watch fold (theorem dead_listed_registration_stays)",
         "registrations are written under their own node id (key = .../<Node.ID>), as registerService does; self presence is proved and monitored for such histories; histories with key/id mismatches are covered by the model correspondence only",
-        "ports fit int32 (Member.Port is int32(port))",
         "service names are unique across members for GetService to be a function (the code logs 'duplicate service name' and keeps an arbitrary item otherwise)",
         "items of the *working* lists carry a nil PID in the code (only the per-type list is passed through makePID); the model and the specification record this, it is reported to the lead as a suspected defect of helpers such as GetFirstWorkService, not flagged by this check",
     ],
